@@ -46,6 +46,18 @@ META = {
                 text="protocol-aware frame generators (ARP, DHCPv4, ICMPv4 with embedded datagrams, ICMPv6/NDP option lists, DNS, mDNS/LLMNR with every record type in every section, NBNS, SSDP, 802.3) closed under truncation at every offset, count/length/pointer corruption and byte mutation, dispatched by PayloadID through Parse -> Process* -> Notify exactly as the examples do, plus raw bytes into the exported payload decoders behind their IsValid; every case is journalled before it runs and a watchdog turns a handler that does not return within 20 s into a violation with a replay file; thorough adds native coverage-guided fuzzing",
                 note="termination is judged by a 20 s budget against a nominal cost below 1 ms; absence of panics/hangs is only shown for the generated cases",
                 tech="property-based testing (rapid) with protocol-aware generators + exhaustive truncation sweeps + native go fuzzing; oracle = returns without panic within the watchdog budget"),
+    "C10": dict(level="exploration",
+                text="differential (metamorphic) testing: each generated packet history (host-tracking frames, DHCP handshakes, RAs with option lists, DNS/mDNS/NBNS/SSDP name traffic, ARP towards a hunted host, capture toggles, purges, lease ticks) runs twice in fresh sessions and handlers - once with ONE shared receive buffer that is overwritten after every step, once with a private buffer per packet - and after every step notifications, emitted frames (DHCP decoded), host and MAC tables, leases, IPv6 routers, DNS table and name-handler results must be identical",
+                note="time stamps are not compared; frames sent by goroutines are compared as a multiset after joining the senders and a difference must reproduce three times to be reported; purge probes and the hunt loop's periodic announcements are not compared (their order depends on map iteration / scheduling)",
+                tech="property-based differential testing (rapid): shared poisoned buffer vs private buffers, transcript equality"),
+    "C16": dict(level="exploration",
+                text="for generated well-formed frames of every PayloadID class and six source situations every view returned by Parse is checked for pointer identity with the input buffer at the reference offset, write-through in both directions and containment in the frame (also when the UDP length field overstates the datagram), and testing.AllocsPerRun(50, Parse) must be 0 once the source is tracked; every UDP port class is enumerated in both directions for all situations",
+                note="non-race build, loggers at their default level; a non-zero allocation figure is re-measured twice before it is reported",
+                tech="property-based testing (rapid) with pointer-identity and allocation-count oracles + exhaustive port-class table"),
+    "C18": dict(level="fault_enumeration",
+                text="crash-point and corruption enumeration of the DHCP lease file: ack-only histories produce lease files (snapshot after every ACK); restart on the last snapshot must reproduce exactly the acknowledged bindings (independent YAML reader and the handler's own table), acknowledge every renewal and keep bound addresses from a new client; every prefix of the file, every single-byte substitution (2/16 drawn values per offset), deletion and duplication of every line is loaded with New under the watchdog: no panic, no hang, no binding without client id or outside the home LAN, and any loaded set that is a proper subset or contains a foreign binding is classified per fault kind (listed known findings)",
+                note="a crash of the non-atomic rewrite is modelled as a prefix of the new file; restart = new session (capture state is not persistent); the 8 (outcome x fault kind) classes that the unchecksummed YAML format cannot avoid are known findings and do not fail the check",
+                tech="fault injection by exhaustive enumeration of truncation points / byte substitutions / line faults over files produced by generated histories (rapid), with a restart oracle"),
     "C11": dict(level="exploration",
                 text="model-based testing of the DHCP server against a wire-level ledger that only knows what the replies said: every message sequence to depth 4/5 over a 12-symbol alphabet for two clients on a 14-address pool (exhaustive), rapid histories of 5..80 messages (all request kinds, 11 requested-address classes, 4 client identities two of which share a chaddr, spoofed client-ids, capture toggles, +1min/+5h ticks, foreign traffic) on three prefix configurations and three modes, and a pool-exhaustion sub-check",
                 note="a client that sends DISCOVER is in INIT state and no longer holds its address (DESIGN.md C11); RELEASE is treated as freeing although the server keeps the binding - both choices make the oracle accept more; lease expiry is driven through MinuteTicker(now+5h), other time thresholds of the handler are not virtualised",
